@@ -222,7 +222,12 @@ func c11(r *core.Report) {
 							z, _ = core.ConstInt(b.Y)
 						}
 						if !(isBin && b.Op == token.GEQ && isN(b.X) && z == 0) && !flagImpliesNonNeg(c3.Common().Args[1], isN) {
-							okFlag = false
+							// or the flag is set by branches on n: on the paths where n >= 0 is NOT known it
+							// evaluates to false only
+							pe := &core.PathEval{Reached: core.Reach(fn, call, cutN, nil), Cut: cutN}
+							if !pe.AlwaysBool(c3.Common().Args[1], false) {
+								okFlag = false
+							}
 						}
 					}
 					r.Check(okFlag, "C11-NEG-IS-ERROR", name+" n", p.Pos(call.Pos()), "the reply's ok flag is false whenever n < 0", "the reply's ok flag can be true for a negative handler result")
@@ -457,6 +462,16 @@ func c11(r *core.Report) {
 	// asker then gets another handler's bytes with a nil error
 	r.Rule("C11-REPLY-COPIED", "no alias of a received payload (ask replies included) outlives the receive callback or is written", 9)
 	ruleBorrowRecv(r, h, newBorrowEngine(p, h), "C11-REPLY-COPIED")
+
+	// ---- C11-RESP-FENCE (shared with C14): an Ask that returned an error does not have its buffer
+	// written afterwards by a late reply
+	r.Rule("C11-RESP-FENCE", "mbapp writes the asker's response buffer only under the ask's once, and a cancelled Ask passes through that once before returning", 2)
+	ruleRespFence(r, "C11-RESP-FENCE")
+
+	// ---- C11-OFFSET-ORDER-FREE (shared with C10): a multi-part reply is the handler's bytes only if each
+	// part is placed independently of the order of arrival
+	r.Rule("C11-OFFSET-ORDER-FREE", "the position a fragment of a request/reply is copied to depends on that fragment and on fields fixed at construction only", 1)
+	ruleOffsetOrderFree(r, "C11-OFFSET-ORDER-FREE")
 
 	// ---- C11-CTX
 	r.Rule("C11-CTX", "blocking dependency calls on the Ask paths are bound to the caller's context", 6)
